@@ -925,3 +925,24 @@ func iteReader(c bool, a, b io.Reader) io.Reader {
 //@   ensures  [b1]    result == nil ==> outByte(w, old(outLen(w))+1) == specB1(len(p), clientSide(s))
 //@   ensures  [keep]  forall(0, old(outLen(w)), func(k int) bool { return outByte(w, k) == old(outByte(w, k)) })
 //@   assigns stream(w)
+
+// Small constructors and setters (C04, C06, C18).
+//@ func NewClientSideReader
+//@   props C04 C18
+//@   ensures [new] result != nil && result.Source == r && result.State == ws.StateClientSide && idleReader(result) && !result.CheckUTF8 && len(result.Extensions) == 0
+
+//@ func NewServerSideReader
+//@   props C04 C18
+//@   ensures [new] result != nil && result.Source == r && result.State == ws.StateServerSide && idleReader(result) && !result.CheckUTF8 && len(result.Extensions) == 0
+
+//@ func Writer.DisableFlush
+//@   props C06
+//@   ensures [set] w.noFlush
+//@   assigns w.noFlush
+
+//@ func NextReader
+//@   props C04 C16
+//@   requires [src] r != nil && streamOK(r)
+//@   ensures  [err] result2 != nil ==> result1 == nil
+//@   ensures  [cut] !(inEnd(r)-old(inPos(r)) >= 2 && inEnd(r)-old(inPos(r)) >= ws.VSpecNeed(inByte(r, old(inPos(r))+1))) ==> result2 != nil
+//@   ensures  [hdr] result2 == nil ==> result0 == ws.VSpecDecode(r, old(inPos(r))) && result1 != nil
